@@ -515,13 +515,32 @@ def run(ctx):
     ucap = ctx.fn(f"{AC}._update_capabilities")
     ucs = summarize(prog, ucap)
     resp_p = ucap.params[1]
+    additions = []          # (statement, id expression, extra gate expressions)
     for n in ast.walk(ucap.node):
-        if isinstance(n, ast.Expr) and isinstance(n.value, ast.Call) and isinstance(n.value.func, ast.Attribute) and n.value.func.attr == "add" \
-                and is_self_attr(n.value.func.value, "_supported_properties") and n.value.args and n in ucs.ta.env_at:
-            idn = enum_name(ucs.ta.terms_at.get(n.value.args[0], ("top",)))
+        if not (isinstance(n, ast.Expr) and isinstance(n.value, ast.Call) and isinstance(n.value.func, ast.Attribute) and n.value.args
+                and is_self_attr(n.value.func.value, "_supported_properties") and n in ucs.ta.env_at):
+            continue
+        a0 = n.value.args[0]
+        if n.value.func.attr == "add":
+            additions.append((n, a0, []))
+        elif n.value.func.attr == "update" and isinstance(a0, (ast.GeneratorExp, ast.ListComp, ast.SetComp)) and len(a0.generators) == 1 \
+                and isinstance(a0.generators[0].iter, (ast.Tuple, ast.List)) and isinstance(a0.generators[0].target, ast.Tuple) \
+                and all(isinstance(t_, ast.Name) for t_ in a0.generators[0].target.elts) and isinstance(a0.elt, ast.Name):
+            # .update(id for id, capable in ((ID, res.flag), ...) if capable): one gated addition per literal row
+            g_ = a0.generators[0]
+            names_ = [t_.id for t_ in g_.target.elts]
+            for row in g_.iter.elts:
+                if isinstance(row, (ast.Tuple, ast.List)) and len(row.elts) == len(names_) and a0.elt.id in names_:
+                    bind = dict(zip(names_, row.elts))
+                    additions.append((n, bind[a0.elt.id], [bind[c_.id] for c_ in g_.ifs if isinstance(c_, ast.Name) and c_.id in bind]))
+        elif n.value.func.attr == "update" and isinstance(a0, (ast.Set, ast.List, ast.Tuple)):
+            additions.extend((n, el, []) for el in a0.elts)
+    for n, id_expr, extra in additions:
+        if True:
+            idn = enum_name(ucs.ta.terms_at.get(id_expr) or ucs.term(id_expr))
             if idn is None:
                 continue
-            gates = [strip(a) for a in atoms(ucs.ta.env_at[n].pc)]
+            gates = [strip(a) for a in atoms(ucs.ta.env_at[n].pc)] + [strip(ucs.ta.terms_at.get(x_) or ucs.term(x_)) for x_ in extra]
             keys_ = []
             for a in gates:
                 if a[0] == "attr" and a[1] == ("param", resp_p):
